@@ -159,6 +159,13 @@ fn pad_map_full(run: u32, placement: &[Option<(usize, usize)>]) -> Result<Vec<(u
                 match (pos, r) {
                     (Some((bc, br)), Ok(p)) => {
                         let (c, rw) = (usize::from(p.column), usize::from(p.row));
+                        // the by-parts constructors and accessors must agree with try_new
+                        let bp = TpcPwbPosition::try_new(run, pwb(b)).map_err(|e| format!("{e}"))?;
+                        let pp = alpha_g_detector::padwing::map::PwbPadPosition::try_new(run, AfterId::try_from(chip).unwrap(), PadChannelId::try_from(ch).unwrap()).map_err(|e| format!("{e}"))?;
+                        let rebuilt = TpcPadPosition::new(TpcPwbPosition::new(bp.column(), bp.row()), alpha_g_detector::padwing::map::PwbPadPosition::new(pp.column(), pp.row()));
+                        if rebuilt != p || p.z().to_bits() != p.row.z().to_bits() || p.phi().to_bits() != p.column.phi().to_bits() {
+                            return Err(format!("TpcPadPosition::new / accessors disagree with try_new for board {} chip {chip} channel {ch}", PADWING_BOARDS[b].0));
+                        }
                         if c / 4 != *bc || rw / 72 != *br {
                             return Err(format!("pad of board {} lands at column {c} row {rw}, outside the board's cell ({bc},{br})", PADWING_BOARDS[b].0));
                         }
